@@ -839,6 +839,29 @@ class C13(Property):
              "ops": [["spy", 0], ["sub", 0, 0, "api", True], ["sub", 1, 0, "rec", True], ["sub", 2, 0, "api", False],
                      ["put", "svc/k1", "v1"], ["put", "svc/k2", "v1"], ["put", "svc/k1", "v1"], ["del", "svc/k2"],
                      ["put", "svc/k3", "v1"], ["pause"], ["put", "svc/k1", "v1"], ["resume"], ["del", "svc/k3"]]},
+            # a reconnect reload (cluster.reload) with SEVERAL watched keys on one cluster: registrations of every watched
+            # range change during the outage; after the reload every key must be snapshotted and watched again - the views
+            # of ALL keys are compared with etcd, and every key gets further events afterwards
+            {"kind": "cluster", "base": 1, "eps": 1,
+             "watchers": [{"key": "svc", "exact": False}, {"key": "svc/a", "exact": False}, {"key": "svc/k1", "exact": True},
+                          {"key": "svc", "exact": True}],
+             "ops": [["put", "svc/k1", "v1"], ["put", "svc/a/k0", "v2"], ["put", "svc", "v3"],
+                     ["spy", 0], ["sub", 0, 0, "api", False], ["spy", 1], ["sub", 1, 1, "rec", False], ["spy", 2], ["sub", 2, 2, "api", True],
+                     ["spy", 3], ["sub", 3, 3, "rec", True],
+                     ["pause"], ["put", "svc/k1", "v4"], ["put", "svc/a/k1", "v5"], ["del", "svc/a/k0"], ["put", "svc", "v6"],
+                     ["put", "svc/k2", "v7"], ["reconnect"], ["resume"],
+                     ["put", "svc/k1", "v8"], ["put", "svc/a/k0", "v9"], ["put", "svc", "v10"], ["del", "svc/k2"],
+                     ["reconnect"], ["del", "svc/k1"], ["put", "svc/a/k1", "v11"], ["del", "svc"]]},
+            # ... with keys monitored / unmonitored around the reload, and two reloads in a row
+            {"kind": "cluster", "base": 2, "eps": 2, "watchers": [{"key": "svc", "exact": False}, {"key": "svc/a", "exact": False},
+                                                               {"key": "svc/k1", "exact": True}],
+             "ops": [["spy", 0], ["sub", 0, 0, "rec", False], ["spy", 1], ["sub", 1, 1, "api", False], ["put", "svc/a/k0", "v1"],
+                     ["pause"], ["put", "svc/k0", "v2"], ["put", "svc/a/k1", "v3"], ["reconnect"], ["resume"],
+                     ["spy", 2], ["sub", 2, 2, "rec", False], ["put", "svc/k1", "v4"], ["reconnect"], ["reconnect"],
+                     ["put", "svc/k1", "v5"], ["put", "svc/a/k0", "v6"], ["unsub", 1], ["unspy", 1],
+                     ["pause"], ["del", "svc/k0"], ["put", "svc/k1", "v7"], ["reconnect"], ["resume"],
+                     ["spy", 1], ["sub", 3, 1, "rec", True], ["put", "svc/a/k1", "v8"], ["reconnect"], ["del", "svc/a/k0"],
+                     ["put", "svc/k3", "v9"], ["del", "svc/k1"]]},
             # registrations through the real Publisher: KeepAlive, WithId, Pause / Resume, a lease that expires, Stop
             # (Resume and the re-registration after an expiry cost the Publisher's own 1 s tick each)
             {"kind": "cluster", "base": 1, "eps": 1, "watchers": [{"key": "svc", "exact": False}],
